@@ -22,7 +22,7 @@ CMP = ("x", "fun", "jac", "nfev", "njev", "nit", "message", "status", "success",
 def floors(tier):
     return {"pairs_compared": 300, "evaluation_points_compared": 5000, "callback_states_compared": 1500, "scaler_argument_checks": 300,
             "target_runs": 100, "target_stops": 30, "packaged_scaler_pairs": 20, "finite_difference_pairs": 40,
-            "pairs_with_identity_update_function": 40, "pairs_with_reused_gradient_buffer": 40, "pairs_from_a_start_beyond_unit_step_resolution": 20, "pairs_with_infinite_trial_values": 8, "__nontrivial__": 100}
+            "pairs_with_identity_update_function": 40, "pairs_with_an_update_function_switching_on_a_ridge_term": 40, "pairs_with_reused_gradient_buffer": 40, "pairs_from_a_start_beyond_unit_step_resolution": 20, "pairs_with_infinite_trial_values": 8, "__nontrivial__": 100}
 
 
 def cases(tier, seed):
@@ -62,7 +62,8 @@ def cases(tier, seed):
             s = float(np.exp(rng.uniform(np.log(1e-3), np.log(0.3))))
         if cfg["jac"] == "callable" and i % 5 == 2:
             cfg["reuse_grad_buffer"] = True  # the user's gradient fills and returns one preallocated array (in both runs of the pair)
-        yield {"problem": ps, "cfg": cfg, "s": s, "target_frac": float(rng.uniform(0.1, 0.9)), "ufd_identity": bool(i % 5 == 0)}
+        yield {"problem": ps, "cfg": cfg, "s": s, "target_frac": float(rng.uniform(0.1, 0.9)), "ufd_identity": bool(i % 5 == 0),
+               "ufd_ridge": float(np.exp(rng.uniform(np.log(0.05), np.log(5.0)))) if i % 5 == 2 else None}
 
 
 def compare_runs(out, A, B, where, tags):
@@ -140,6 +141,37 @@ def check_target(out, A, s, T, where, tags):
             out.count("target_met_but_other_reason")
 
 
+class Ridged:
+    """Problem-like view whose objective gains the term lam/2 |x|^2 once .on is set (a regularisation switched on by the update function
+    at its first call)."""
+
+    def __init__(self, P, lam):
+        self.P, self.lam, self.on = P, float(lam), False
+        self.n, self.lb, self.ub, self.x0, self.bounds, self.spec, self.meta = P.n, P.lb, P.ub, P.x0, P.bounds, P.spec, P.meta
+
+    def f(self, x):
+        return self.P.f(x) + (0.5 * self.lam * float(x @ x) if self.on else 0.0)
+
+    def g(self, x):
+        return self.P.g(x) + (self.lam * x if self.on else 0.0)
+
+
+def ridge_update(R, s):
+    """The user's update function, written for the units the solver works in (everything it is handed is s times the user's values)."""
+    from collections import deque
+
+    def ufd(x, f0, f0_old, grad, X, G):
+        if R.on:
+            return f0, f0_old, grad, G
+        R.on = True
+        lam = R.lam * s
+        xo = np.asarray(X[-1], dtype=float) if len(X) else np.asarray(x, dtype=float)
+        Gn = deque(np.asarray(gi, dtype=float) + lam * np.asarray(xi, dtype=float) for xi, gi in zip(X, G))
+        return f0 + 0.5 * lam * float(x @ x), f0_old + 0.5 * lam * float(xo @ xo), np.asarray(grad, dtype=float) + lam * np.asarray(x, dtype=float), Gn
+
+    return ufd
+
+
 def run(spec):
     out = Outcome()
     P = gen.make_problem(spec["problem"])
@@ -183,11 +215,21 @@ def run(spec):
         out.count("pairs_from_a_start_beyond_unit_step_resolution")
     if P.spec["family"] in ("log_barrier", "qp_inf_region"):
         out.count("pairs_on_domain_restricted_objective")
-    A = probes.run_min(P, dict(cfg, scaler=scaler_cfg))
-    A.cfg_mode = cfg["jac"]
+    if spec.get("ufd_ridge") and cfg["jac"] == "callable" and spec["s"] != "packaged" and not spec.get("ufd_identity") and not P.spec.get("start_scale"):
+        # the scaler together with an update function that really redefines the objective (a ridge term switched on at its first call,
+        # written for the solver's units): the pair of runs must still coincide, and the scaler still sees the start gradient of the
+        # objective as it was handed over
+        out.count("pairs_with_an_update_function_switching_on_a_ridge_term")
+        RA, RB = Ridged(P, spec["ufd_ridge"]), Ridged(P, spec["ufd_ridge"])
+        A = probes.run_min(RA, dict(cfg, scaler=scaler_cfg), hooks={"ufd": ridge_update(RA, s)})
+        A.cfg_mode = cfg["jac"]
+        B = probes.run_min(RB, dict(cfg, explicit_scale=s), hooks={"ufd": ridge_update(RB, s)})
+    else:
+        A = probes.run_min(P, dict(cfg, scaler=scaler_cfg))
+        A.cfg_mode = cfg["jac"]
+        B = probes.run_min(P, dict(cfg, explicit_scale=s))
     if A.exc is None and any(k == "f" and not np.isfinite(v) for k, p, v in A.evals):
         out.count("pairs_with_infinite_trial_values")
-    B = probes.run_min(P, dict(cfg, explicit_scale=s))
     out.count("pairs_compared")
     tagsS = dict(tags, packaged=spec["s"] == "packaged")
     ok = compare_runs(out, A, B, f"{name} s={s!r}", tagsS)
